@@ -123,5 +123,8 @@ func CreateSpliceInsertPayload(p SpliceInsertParams) []byte {
 	cmd.SetIsOut(p.OutOfNetworkIndicator)
 	cmd.SetSpliceImmediate(p.SpliceImmediateFlag)
 	s.SetCommandInfo(cmd)
+	// The section's own PTS must follow the command's: otherwise the encoder writes
+	// pts_adjustment = -pts_time and the adjusted splice time becomes 0.
+	s.SetPTS(gots.PTS(p.PtsTime))
 	return s.UpdateData()
 }
